@@ -1,6 +1,6 @@
 (* Properties/C14.v -- Header collections are ordered, case-insensitive multimaps of ASCII strings.
    This file contains only property-level statements; each is closed by [exact <lemma>]. *)
-From SV Require Import Base.Bytes Base.BytesP Model.Headers Proofs.HeadersP.
+From SV Require Import Base.Bytes Base.BytesP Model.Headers Proofs.HeadersP Model.RustStr Model.Request Spec.Framing Proofs.FramingP.
 
 (* C14.1  Every operation of the model (transcribed from src/headers.rs) behaves exactly like the
    ordered multimap specification [spec_step] (filter-by-case-insensitive-name), for every state
@@ -64,6 +64,24 @@ Theorem c14_oracle_sound :
   forall hs o, oracle_c14_step hs o (fst (hstep hs o)) (snd (hstep hs o)) = true.
 Proof. exact oracle_c14_model. Qed.
 
+(* C14.8  "Consequently the header list a handler sees is the list the client sent, in order, minus the
+   framing fields the library consumes": for every method and every sent field list (any length, any
+   order, any multiplicity of the consumed fields), when read_http_request's header processing accepts,
+   the exposed list is the sent list filtered by "name is none of content-type / expect /
+   transfer-encoding (ASCII-case-insensitively)" -- order kept, nothing else removed, nothing added;
+   and the boolean oracle the correspondence check evaluates on the implementation's list holds. *)
+Theorem c14_handler_sees_sent_minus_consumed :
+  forall method hs r, values_fv hs = true -> request_of_head method hs = QOk r ->
+    rq_headers r =
+    filter (fun h => negb (eq_ic (fst h) n_content_type || eq_ic (fst h) n_expect ||
+                           eq_ic (fst h) n_transfer_encoding)) hs.
+Proof. exact exposed_headers. Qed.
+
+Theorem c14_request_oracle_sound :
+  forall method hs r, values_fv hs = true -> request_of_head method hs = QOk r ->
+    oracle_c14_req hs (rq_headers r) = true.
+Proof. exact oracle_c14_req_model. Qed.
+
 (* Pre-repair code (Vec::swap_remove) violates C14.4 -- the witness of defect D11. *)
 Theorem c14_swap_remove_refuted :
   remove_all_swap d11_witness [97] = ([([99],[52]); ([98],[50])], [[49]; [53]; [51]]) /\
@@ -88,3 +106,5 @@ Print Assumptions c14_constructor_ascii_only.
 Print Assumptions c14_ascii_invariant.
 Print Assumptions c14_oracle_sound.
 Print Assumptions c14_swap_remove_refuted.
+Print Assumptions c14_handler_sees_sent_minus_consumed.
+Print Assumptions c14_request_oracle_sound.
